@@ -19,6 +19,7 @@ import IoosQc.Model.CallRun
 import IoosQc.Model.System
 import IoosQc.Model.Np
 import IoosQc.Model.NpAgg
+import IoosQc.Model.NpFx
 
 open Lean IoosQc IoosQc.Wire
 
@@ -410,6 +411,26 @@ def handleFxParse (j : Json) : D Json := do
 
 def ratJson (q : Rat) : Json := Json.arr #[toJson q.num, toJson q.den]
 
+/-- kind = "fx_src": a raw stack of `exprStack` entries (strings, `(name, nargs)` tuples), the table of what Python's
+    `float` returns for each string on it, the statistics: the transcription `NpSrc.eval_fx` is run on it. -/
+def handleFxSrc (j : Json) : D Json := do
+  let st ← field j "stats" >>= asStats
+  let stack ← field j "stack" >>= asList (fun e => match optField e "s" with
+    | some s => NpFx.SE.str <$> asStr s
+    | none => do
+      let n ← field e "name" >>= asStr
+      let k ← field e "nargs" >>= asNat
+      pure (NpFx.SE.call n k))
+  let floats ← field j "floats" >>= asList (fun e => do
+    let k ← field e "s" >>= asStr
+    let v ← getOpt asRat e "v"
+    pure (k, v))
+  let pf : String → Option Rat := fun s => (floats.find? (·.1 == s)).bind (·.2)
+  pure (match NpSrc.eval_fx pf st.get stack with
+    | .ok v => Json.mkObj [("out", Json.str "ok"), ("value", ratJson v)]
+    | .error .raised => Json.mkObj [("out", Json.str "raised")]
+    | .error .unmodelled => Json.mkObj [("out", Json.str "unmodelled")])
+
 /-- kind = "creator": a time-constant climatology grid, a bounding box and a number of days:
     the statistics `create_config` must feed to the limit expressions (exact rationals; the
     variance instead of the standard deviation), and the span of two expression strings parsed by
@@ -679,6 +700,7 @@ def dispatch (kind : String) (j : Json) : D Json :=
   | "fx_eval" => handleFxEval j
   | "fx_valid" => handleFxValid j
   | "fx_parse" => handleFxParse j
+  | "fx_src" => handleFxSrc j
   | "creator" => handleCreator j
   | "window" => handleWindow j
   | "c16" => handleC16 j
